@@ -384,6 +384,8 @@ type dsGate struct {
 	fired   chan struct{}
 	release chan struct{}
 	o1, o2  sync.Once
+	trail   []string // hook events of the gated connection's destination from the writer hold on (diagnosis)
+	t0      time.Time
 }
 
 func newDsGate(src string, cut func()) *dsGate {
@@ -413,11 +415,16 @@ func hook(name string, args ...interface{}) {
 	st := v.(*hstate)
 	st.mu.Lock()
 	st.counts[name]++
+	if ds := st.ds; ds != nil && ds.phase >= 2 && len(ds.trail) < 80 {
+		mine := len(args) > 1 && args[1] == ds.conn
+		ds.trail = append(ds.trail, fmt.Sprintf("%d:%s:%v", time.Since(ds.t0)/time.Millisecond, name, mine))
+	}
 	switch name {
 	case "hd.recv":
 		st.inHand[args[1]] = string(args[2].([]byte))
 		if ds := st.ds; ds != nil && ds.phase == 1 {
 			ds.phase = 2
+			ds.t0 = time.Now()
 			ds.conn = args[1]
 			ds.held = string(args[2].([]byte))
 			st.mu.Unlock()
@@ -544,13 +551,13 @@ func (st *hstate) armDs(src string, cut func()) *dsGate {
 	return ds
 }
 
-func (st *hstate) dsInfo() (outcome, line, held string, inLen, inCap int) {
+func (st *hstate) dsInfo() (outcome, line, held string, inLen, inCap int, trail []string) {
 	st.mu.Lock()
 	defer st.mu.Unlock()
 	if st.ds == nil {
-		return "not-armed", "", "", 0, 0
+		return "not-armed", "", "", 0, 0, nil
 	}
-	return st.ds.outcome, st.ds.line, st.ds.held, st.ds.inLen, st.ds.inCap
+	return st.ds.outcome, st.ds.line, st.ds.held, st.ds.inLen, st.ds.inCap, append([]string{}, st.ds.trail...)
 }
 
 func (st *hstate) setHow(h string) {
@@ -1252,12 +1259,16 @@ func runC07(s c07Scn, spoolRoot string, prog *hx.Log) []ev {
 			case <-time.After(25 * time.Second):
 				out = "not-fired"
 			}
-			o, line, heldLine, il, ic := st.dsInfo()
+			o, line, heldLine, il, ic, trail := st.dsInfo()
 			if out == "" {
 				out = o
 			}
-			evs = append(evs, ev{"ev": "dsgate", "scn": s.ID, "src": st.ds.src, "connbuf": s.ConnBuf, "outcome": out,
-				"line": strings.TrimPrefix(line, prefix), "held": strings.TrimPrefix(heldLine, prefix), "in_len": il, "in_cap": ic})
+			g := ev{"ev": "dsgate", "scn": s.ID, "src": st.ds.src, "connbuf": s.ConnBuf, "outcome": out,
+				"line": strings.TrimPrefix(line, prefix), "held": strings.TrimPrefix(heldLine, prefix), "in_len": il, "in_cap": ic}
+			if out != "fired" {
+				g["trail"] = trail
+			}
+			evs = append(evs, g)
 			evs = append(evs, ev{"ev": "cut", "scn": s.ID, "inc": e.inc, "handed": int(atomic.LoadInt64(&next))})
 		case "f10": // gated schedule of TLC's counterexample (see hook)
 			atomic.StoreInt32(&st.armed, 1)
